@@ -786,6 +786,54 @@ def format_calls(fn):
     return out
 
 
+def format_arg_sources_ordered(fn, fmt_term, phs):
+    """for an Arguments::new call: per placeholder, in display order, the set of callee names the displayed value slices back to
+    (None when the argument array is not the literal `[Argument::new_*(&x), ..]` aggregate)"""
+    def chase(l, depth=0):
+        d = fn.single_def(l)
+        if not d or d[0] != "assign" or depth > 8:
+            return None
+        rv = d[3]
+        if rv["k"] == "ref":
+            return chase(P(rv["place"])[0], depth + 1)
+        if rv["k"] in ("use", "cast") and op_local(rv["op"]) is not None:
+            return chase(op_local(rv["op"]), depth + 1)
+        if rv["k"] == "aggregate" and rv.get("akind") == "array":
+            return rv
+        return None
+    if len(fmt_term["args"]) < 2 or op_local(fmt_term["args"][1]) is None:
+        return None
+    arr = chase(op_local(fmt_term["args"][1]))
+    if arr is None:
+        return None
+    per_arg = []
+    for o in arr["ops"]:
+        sl, info = fn.slice_locals(o)
+        per_arg.append({callee_name(t["callee"]) for _, t in info["calls"]} | {"field:%s" % fld for (adt, fld) in info["fields"] if fld is not None})
+    out = []
+    for ph in phs:
+        i = ph.get("pos")
+        if i is None or i >= len(per_arg):
+            return None
+        out.append(per_arg[i])
+    return out
+
+
+def contig_then_position(fn, fmt_term, phs):
+    """None when undecidable; else (ok, detail): the position is displayed right after the contig (or in one value with it), nothing else in
+    between - `'{}:{}' (record {})` fed with (contig, record number, position) names a site that does not exist"""
+    order = format_arg_sources_ordered(fn, fmt_term, phs)
+    if order is None:
+        return None
+    C, Pn = "sfs_core::input::site::reader::Reader::current_contig", "sfs_core::input::site::reader::Reader::current_position"
+    ic = [i for i, s in enumerate(order) if C in s]
+    ip = [i for i, s in enumerate(order) if Pn in s]
+    if not ic or not ip:
+        return None
+    ok = 0 <= ip[0] - ic[0] <= 1
+    return ok, "placeholders in display order: %s" % [("contig" if C in s else "") + ("position" if Pn in s else "") or "other" for s in order]
+
+
 def const_bytes_of(fn, op, depth=0):
     """bytes of a constant byte-string operand, following `&(*_x)` reborrows of const refs"""
     if depth > 8:
